@@ -605,6 +605,25 @@ def expand(prog):
         # read-only private helpers of the sorted-list variants (a shared `locate`, a result-to-handle conversion): the list
         # rules are anchored on the public operations, so such helpers are expanded into them
         view = view_helpers(prog)
+        pool_single = set()
+        try:
+            pools = prog.pool_adts
+            sites_of = {}
+            for f_ in prog.fns.values():
+                if not f_.info.get('mir'):
+                    continue
+                for c_ in f_.body.calls:
+                    hp_ = (c_.callee or {}).get('path')
+                    if hp_ in prog.fns:
+                        sites_of.setdefault(hp_, []).append(f_.path)
+            for hp_, callers_ in sites_of.items():
+                h_ = prog.fns[hp_]
+                if h_.self_adt in pools and not h_.trait_item and h_.vis != 'Public' and not h_.is_closure and len(callers_) == 1 \
+                        and prog.fns[callers_[0]].self_adt == h_.self_adt and h_.name != 'new' and prog.fns[callers_[0]].name != 'new' \
+                        and any((c2.callee or {}).get('name') == 'pop' for c2 in h_.body.calls) and any((c2.callee or {}).get('name') == 'pop' for c2 in prog.fns[callers_[0]].body.calls):
+                    pool_single.add(hp_)
+        except Exception:
+            pool_single = set()
         rec = {}
         changed = False
         for F in list(prog.fns.values()):
@@ -632,6 +651,8 @@ def expand(prog):
                     rf_, rh_ = ROLE_BY_METHOD.get(F.trait_method()), ROLE_BY_METHOD.get(H.trait_method())
                     ro = not any((l['ty'] or '').startswith('&mut') for l in H.body.locals[1:H.body.arg_count + 1])
                     cross = bool(rf_ and rh_ and rf_ != rh_ and ro and not (F.trait_method() == 'delete' and rh_ == 'EXACT'))
+                if H is not None and not cross and H.path != F.path and H.path in pool_single:
+                    cross = True        # a private function of an arena pool with exactly one call site (a growth path moved out of line): part of its caller
                 if H is None or (H.path not in cbp and H.path not in flg and H.path not in view and not cross) or H.path == F.path:
                     continue
                 if H.path not in rec:
